@@ -41,7 +41,7 @@ msg_to = Fn(F, ["impl OpaqueIpcMessage", "to"], ret="r", extra_params=TLS,
     ensures=[
         Clause("ipc.OpaqueIpcMessage.to/ensures.tables_restored_on_every_exit",
                "final(tls).de_channels@ == old(tls).de_channels@ && final(tls).de_regions@ == old(tls).de_regions@\n"
-               "&& final(tls).ser_channels@ == old(tls).ser_channels@ && final(tls).ser_regions@ == old(tls).ser_regions@", ["C14", "C16", "C03", "C09", "C11", "C20"]),
+               "&& final(tls).ser_channels@ == old(tls).ser_channels@ && final(tls).ser_regions@ == old(tls).ser_regions@", ["C14", "C16", "C03", "C09", "C11", "C20", "C05", "C04"]),
     ],
     rules=[MutSelf(), R_TAKE, T_DE_CH, T_DE_RG, AppendArg("B7", r"bincode::deserialize\(", "tls", "dependency: bincode + the user's Deserialize impls", rename="bincode_deserialize"),
            AppendArg("B7b", r"bincode::deserialize_from\(", "tls", "dependency: bincode's reader entry point (not total)", rename="bincode_deserialize_from")],
